@@ -236,3 +236,16 @@ Definition observe (st : dstate) : Z * bool * Z * Z * bool * bool :=
    mir (o_orient o), fst (lsize o), snd (lsize o), d_sleeping st, true).
 
 End Driver.
+
+(* fault-free execution of a program of Display operations: per-op (events, result), final state *)
+Fixpoint exec (c : ctx) (st : dstate) (ops : list pop) : list (list event * res) * dstate :=
+  match ops with
+  | [] => ([], st)
+  | op :: r =>
+      let '(t, rs, st') := step c st op in
+      let '(l, stf) := exec c st' r in ((t, rs) :: l, stf)
+  end.
+Definition exec_trace (c : ctx) (st : dstate) (ops : list pop) : list event :=
+  concat (map fst (fst (exec c st ops))).
+Definition exec_all_ok (c : ctx) (st : dstate) (ops : list pop) : bool :=
+  forallb (fun x => res_beq (snd x) ROk) (fst (exec c st ops)).
